@@ -181,9 +181,15 @@ impl<Meta> Archive<Meta> {
                 }
                 objects.push((u64::from(pos), header.size));
                 stats.object_count += 1;
-                stats.object_size += header.size;
-                stats.padding_size += header.size.saturating_sub(
-                    Self::min_object_size(header.name_len, header.data_len)
+                stats.object_size = stats.object_size.saturating_add(
+                    header.size
+                );
+                stats.padding_size = stats.padding_size.saturating_add(
+                    header.size.saturating_sub(
+                        Self::min_object_size(
+                            header.name_len, header.data_len
+                        )
+                    )
                 );
                 start = header.next;
             }
@@ -196,7 +202,7 @@ impl<Meta> Archive<Meta> {
             let header = ObjectHeader::read(&self.file, pos.into())?;
             objects.push((u64::from(pos), header.size));
             stats.empty_count += 1;
-            stats.empty_size += header.size;
+            stats.empty_size = stats.empty_size.saturating_add(header.size);
             if stats.empty_min == 0 {
                 stats.empty_min = header.size
             }
@@ -211,7 +217,7 @@ impl<Meta> Archive<Meta> {
         objects.sort_by_key(|obj| obj.0);
 
         for window in objects.windows(2) {
-            if window[1].0 != window[0].0 + window[0].1 {
+            if Some(window[1].0) != window[0].0.checked_add(window[0].1) {
                 return Err(ArchiveError::Corrupt("broken sequence"))
             }
         }
@@ -621,10 +627,14 @@ impl<Meta: ObjectMeta> Archive<Meta> {
 
     /// Returns the size of an object with the given name and content.
     fn min_object_size(name_len: usize, data_len: usize) -> u64 {
-          ObjectHeader::SIZE
-        + usize_to_u64(name_len)
-        + usize_to_u64(Meta::SIZE)
-        + usize_to_u64(data_len)
+        // The lengths may come from a corrupt file.
+        ObjectHeader::SIZE.saturating_add(
+            usize_to_u64(name_len)
+        ).saturating_add(
+            usize_to_u64(Meta::SIZE)
+        ).saturating_add(
+            usize_to_u64(data_len)
+        )
     }
 
     /// Returns the object size rounded up to full pages.
